@@ -141,6 +141,28 @@ func verifParse(text string, path string) (int, error) {
 	return strconv.Atoi(text)
 }
 
+var verifScratch string
+
+// verifParseReal writes the content to a scratch file and lets the original ReadIntFromFile read it.
+func verifParseReal(text string, path string) (int, error) {
+	if verifScratch == "" {
+		dir := "/dev/shm"
+		if st, err := os.Stat(dir); err != nil || !st.IsDir() {
+			dir = os.TempDir()
+		}
+		f, err := os.CreateTemp(dir, "fan2go-verif-content-")
+		if err != nil {
+			return verifParse(text, path)
+		}
+		verifScratch = f.Name()
+		_ = f.Close()
+	}
+	if err := os.WriteFile(verifScratch, []byte(text), 0644); err != nil {
+		return verifParse(text, path)
+	}
+	return ReadIntFromFileOrig(verifScratch)
+}
+
 // must be called with d.Mu held
 func (d *VerifDriverT) match(op string, path string, value int) *VerifRule {
 	var hit *VerifRule
@@ -195,7 +217,8 @@ func (d *VerifDriverT) read(path string) (value int, err error) {
 		value, err = -1, &fs.PathError{Op: "open", Path: path, Err: verifErrno(rule.Errno)}
 		ev.Action = "fail"
 	case rule != nil && rule.Action == "content":
-		value, err = verifParse(rule.Raw, path)
+		// the injected bytes are parsed by the real accessor, not by a copy of its parsing code
+		value, err = verifParseReal(rule.Raw, path)
 		ev.Action = "content"
 	default:
 		if p, ok := d.Plants[path]; ok {
